@@ -135,7 +135,7 @@ def build_driver(work, defs, tags="verif", race=False):
     return binp, defs_path
 
 
-EV_OF_OP = {"size": "Size", "encode": "Encode", "encsweep": "Encode", "decode": "Decode", "gc": "GC", "deep": "Deep", "reject": "Reject", "legacy": "Legacy", "allocs": "Allocs", "par": "Par", "walk": "Walk", "recheck": "Recheck"}
+EV_OF_OP = {"size": "Size", "encode": "Encode", "encsweep": "Encode", "decode": "Decode", "gc": "Recheck", "deep": "Deep", "reject": "Reject", "legacy": "Legacy", "allocs": "Allocs", "par": "Par", "walk": "Walk", "recheck": "Recheck", "clone": "Recheck", "overwrite": "Recheck", "drop": "Recheck"}
 
 
 def run_driver(work, binp, defs_path, scenarios, env=None, maxstack=0, step_timeout=None):
@@ -265,7 +265,8 @@ def judge(work, defs_path, records, module="ApiTrace", nshards=None, timeout=300
         if st.get("exit") != 0 or not summ or summ[0]["lines"] != len(sh) or summ[0]["consumed"] != len(sh):
             keep = os.path.join(VERIF, "work", "last-judge-failure.txt")
             with open(keep, "w") as fh:
-                fh.write(out[-20000:])
+                i = out.find("Error:")
+                fh.write(out[max(0, i - 200):i + 6000] + "\n...\n" + out[-6000:])
             raise MachineryError("trace judge failed on shard %d (TLC exit %s); see %s\n%s" % (
                 ix, st.get("exit"), keep, out[-1500:]))
         rej = tlc_printed_json(out, "REJECT")
